@@ -11,6 +11,23 @@ import json, os, re, shutil, subprocess, sys, time, glob
 HOME = os.environ.get("VERIF_HOME", os.path.dirname(os.path.dirname(os.path.abspath(__file__))))
 SPEC = os.path.join(HOME, "spec")
 HARNESS = os.path.join(HOME, "harness")
+# The implementation under test.  Registered commands always use /repo; VERIF_REPO exists only so that seeded changes can be
+# tried on a scratch copy while /repo stays untouched (run/seedtool.py).
+REPO = os.environ.get("VERIF_REPO", "/repo")
+OUTDIR = HOME if REPO == "/repo" else os.path.join(REPO + ".out")   # shadow runs never touch /verif/evidence
+
+
+def modfile_args(scratch):
+    if REPO == "/repo":
+        return []
+    mod = os.path.join(scratch, "alt.mod")
+    with open(os.path.join(HARNESS, "go.mod")) as f:
+        txt = f.read().replace("=> /repo", "=> " + REPO)
+    with open(mod, "w") as f:
+        f.write(txt)
+    shutil.copy(os.path.join(HARNESS, "go.sum"), os.path.join(scratch, "alt.sum"))
+    return ["-modfile=" + mod]
+
 SCRATCH_ROOT = os.environ.get("VERIF_SCRATCH", "/var/tmp/verif-scratch")
 NCPU = os.cpu_count() or 4
 
@@ -90,7 +107,7 @@ class Ctx:
         if self._driver:
             return self._driver
         out = self.path("wsdrive")
-        p = subprocess.run(["go", "build", "-tags", "verif", "-o", out, "./cmd/wsdrive"], cwd=HARNESS,
+        p = subprocess.run(["go", "build"] + modfile_args(self.scratch) + ["-tags", "verif", "-o", out, "./cmd/wsdrive"], cwd=HARNESS,
                            stdout=subprocess.PIPE, stderr=subprocess.STDOUT, text=True)
         if p.returncode != 0:
             sys.stderr.write(p.stdout)
@@ -155,7 +172,7 @@ def finish(ctx, level="model_checking"):
         if hit:
             print("KNOWN-FINDING: property=%s %s (%d occurrences; signature %s)" % (ctx.pid, hit[0].get("what", sig), n, sig))
             continue
-        d = os.path.join(HOME, "replays", ctx.pid)
+        d = os.path.join(OUTDIR, "replays", ctx.pid)
         os.makedirs(d, exist_ok=True)
         rp = os.path.join(d, re.sub(r"[^A-Za-z0-9_.-]", "_", sig)[:80] + ".json")
         json.dump({"property": ctx.pid, "sig": sig, "occurrences": n, "mismatch": m, "seed": ctx.seed, "tier": ctx.tier}, open(rp, "w"), indent=1)
@@ -174,8 +191,8 @@ def finish(ctx, level="model_checking"):
     cov.update({k: v for k, v in ctx.extra.items() if k != "exhaustive"})
     ev = {"property_id": ctx.pid, "tier": ctx.tier, "seed": ctx.seed, "level": level, "coverage": cov,
           "assumptions": ctx.assumptions, "wall_s": round(time.time() - ctx.t0, 1), "violations": nviol}
-    os.makedirs(os.path.join(HOME, "evidence"), exist_ok=True)
-    json.dump(ev, open(os.path.join(HOME, "evidence", ctx.pid + ".json"), "w"), indent=1)
+    os.makedirs(os.path.join(OUTDIR, "evidence"), exist_ok=True)
+    json.dump(ev, open(os.path.join(OUTDIR, "evidence", ctx.pid + ".json"), "w"), indent=1)
     print("%s %s seed=%d: states=%d transitions=%d impl_runs=%d wall=%.1fs -> %s" % (
         ctx.pid, ctx.tier, ctx.seed, ctx.states, ctx.transitions, ctx.impl_traces, time.time() - ctx.t0,
         "VIOLATION" if rc else "ok"))
@@ -268,7 +285,7 @@ def absorb_rejections(ctx, rej, family, trace_file, only=None):
     for sig, items in by.items():
         if only is not None and sig not in only:
             continue
-        keep = os.path.join(HOME, "replays", ctx.pid)
+        keep = os.path.join(OUTDIR, "replays", ctx.pid)
         os.makedirs(keep, exist_ok=True)
         dst = os.path.join(keep, "%s-trace-%s.ndjson" % (family, re.sub(r"[^A-Za-z0-9_.-]", "_", sig)[:60]))
         try:
@@ -319,7 +336,7 @@ def repo_tests_traced(ctx, only_conn, only_pool=None):
     raw = ctx.path("repotests.ndjson")
     e = dict(os.environ)
     e["VERIF_TRACE_FILE"] = raw
-    p = subprocess.run(["timeout", "900", "go", "test", "-tags", "verif", "-vet=off", "-count=1", "-timeout", "800s", "."], cwd="/repo",
+    p = subprocess.run(["timeout", "900", "go", "test", "-tags", "verif", "-vet=off", "-count=1", "-timeout", "800s", "."], cwd=REPO,
                        env=e, stdout=subprocess.PIPE, stderr=subprocess.STDOUT, text=True)
     if not os.path.exists(raw) or os.path.getsize(raw) == 0:
         raise Infra("repository tests produced no trace (exit %d): %s" % (p.returncode, p.stdout[-500:]))
